@@ -4,8 +4,12 @@
 package main
 
 import (
+	"bytes"
+	"encoding/json"
 	"fmt"
 	"io"
+	"os"
+	"os/exec"
 	"net"
 	"net/http"
 	"net/http/httptest"
@@ -27,6 +31,7 @@ import (
 	"github.com/form3tech-oss/f1/v2/internal/verifshim/vctx"
 	"github.com/form3tech-oss/f1/v2/internal/verifshim/vrt"
 	"github.com/form3tech-oss/f1/v2/internal/verifshim/vtime"
+	"github.com/form3tech-oss/f1/v2/pkg/f1"
 	f1testing "github.com/form3tech-oss/f1/v2/pkg/f1/testing"
 )
 
@@ -531,9 +536,211 @@ func gatewaySuite() hlib.Suite {
 
 func suites(tier string) []hlib.Suite {
 	if tier == "quick" {
-		return []hlib.Suite{suite(8, 3), builtFirstSuite(), gatewaySuite()}
+		return []hlib.Suite{suite(8, 3), builtFirstSuite(), gatewaySuite(), publicAPISuite()}
 	}
-	return []hlib.Suite{suite(64, 3), builtFirstSuite(), gatewaySuite()}
+	return []hlib.Suite{suite(64, 3), builtFirstSuite(), gatewaySuite(), publicAPISuite()}
 }
 
-func main() { hlib.EnumMain("C16", suites) }
+// ---- the outermost entry point: f1.New().WithStaticMetrics(labels).Add(...).ExecuteWithArgs ----
+// The process-wide metrics instance can be initialised once per process, so every case runs in a child
+// process of this binary (C16_CHILD carries the case); the child prints what its default registry
+// holds afterwards, and the parent plays the push gateway the child pushes to.
+
+type childCase struct {
+	Labels  map[string]string `json:"labels"`
+	Gateway string            `json:"gateway"`
+	Mode    string            `json:"mode"` // constant | users | file
+}
+
+type childSeries struct {
+	Family string            `json:"family"`
+	Labels map[string]string `json:"labels"`
+	Count  uint64            `json:"count"`
+}
+
+type childOut struct {
+	Status string        `json:"status"`
+	Err    string        `json:"err"`
+	Series []childSeries `json:"series"`
+}
+
+func child() {
+	var c childCase
+	if err := json.Unmarshal([]byte(os.Getenv("C16_CHILD")), &c); err != nil {
+		fmt.Fprintln(os.Stderr, "bad C16_CHILD:", err)
+		os.Exit(2)
+	}
+	if c.Gateway != "" {
+		os.Setenv("PROMETHEUS_PUSH_GATEWAY", c.Gateway)
+	} else {
+		os.Unsetenv("PROMETHEUS_PUSH_GATEWAY")
+	}
+	os.Unsetenv("PROMETHEUS_NAMESPACE")
+	os.Unsetenv("PROMETHEUS_LABEL_ID")
+	args := []string{"run", "constant", "s", "--rate", "1/100ms", "--distribution", "none", "--max-duration", "5s", "--concurrency", "1", "--max-iterations", "3"}
+	switch c.Mode {
+	case "users":
+		args = []string{"run", "users", "s", "--max-duration", "5s", "--concurrency", "1", "--max-iterations", "3"}
+	case "staged":
+		args = []string{"run", "staged", "s", "--stages", "0s:10,1s:10", "--iterationFrequency", "100ms", "--distribution", "none", "--max-duration", "5s", "--concurrency", "1", "--max-iterations", "3"}
+	}
+	var o childOut
+	var gotErr error
+	out := vrt.RunDefault(func() {
+		fw := f1.New().WithLogger(hlib.DiscardLogger()).WithStaticMetrics(c.Labels)
+		fw.Add("s", func(t *f1testing.T) f1testing.RunFn {
+			return func(t *f1testing.T) {
+				t.Time("step", func() {})
+				if t.Iteration == "2" {
+					t.Fail()
+				}
+			}
+		})
+		gotErr = fw.ExecuteWithArgs(args)
+	}, 60*time.Second, 0)
+	o.Status = out.Status.String()
+	if out.Status != vrt.StOK {
+		o.Err = out.Crash + out.Detail
+	} else if gotErr != nil {
+		o.Err = gotErr.Error() // one iteration fails: an error is the expected verdict
+	}
+	mfs, err := prometheus.DefaultGatherer.Gather()
+	if err != nil {
+		o.Err += " gather: " + err.Error()
+	}
+	for _, mf := range mfs {
+		if !strings.HasPrefix(mf.GetName(), "form3_loadtest_") {
+			continue
+		}
+		for _, m := range mf.GetMetric() {
+			cs := childSeries{Family: mf.GetName(), Labels: map[string]string{}, Count: m.GetSummary().GetSampleCount()}
+			for _, l := range m.GetLabel() {
+				cs.Labels[l.GetName()] = l.GetValue()
+			}
+			o.Series = append(o.Series, cs)
+		}
+	}
+	json.NewEncoder(os.Stdout).Encode(o)
+}
+
+func publicAPISuite() hlib.Suite {
+	return hlib.Suite{Name: "f1.New().WithStaticMetrics(labels).ExecuteWithArgs/child-process-per-case", Run: func(r *hlib.Rec) {
+		labelSets := []map[string]string{nil, {}, {"a": "v_a"}, {"zone": "v_zone", "Zone": "v_Zone"}, {"id": "v_id", "id1": "v_id1", "a_b": "v_a_b"}, {"a": "", "b": "v_b"}, {"b": "v_b", "a": "v_a", "A": "v_A", "zone": "v_zone"}}
+		for li, labels := range labelSets {
+			for _, mode := range []string{"constant", "users", "staged"} {
+				for _, withGW := range []bool{true, false} {
+					if !r.Mine() {
+						continue
+					}
+					r.Eval()
+					var lk []string
+					for k := range labels {
+						lk = append(lk, k)
+					}
+					sort.Strings(lk)
+					input := fmt.Sprintf("f1.New().WithStaticMetrics(%v).Add(s).ExecuteWithArgs(run %s s ... --max-iterations 3), iteration 2 fails, push gateway configured=%v", lk, mode, withGW)
+					r.SampleCase(input)
+					cc := childCase{Labels: labels, Mode: mode}
+					gw := &gateway{groups: map[string]map[string]*dto.MetricFamily{}}
+					if withGW {
+						ln, lerr := net.Listen("tcp", "127.0.0.1:0")
+						if lerr != nil {
+							r.Note = "skipped: cannot listen on the loopback interface (" + lerr.Error() + ")"
+							return
+						}
+						srv := &httptest.Server{Listener: ln, Config: &http.Server{Handler: gw}}
+						srv.Start()
+						defer srv.Close()
+						cc.Gateway = srv.URL
+					}
+					js, _ := json.Marshal(cc)
+					cmd := exec.Command(os.Args[0])
+					cmd.Env = append(os.Environ(), "C16_CHILD="+string(js), "VERIF_NO_METRICS_INIT=1")
+					var stderr bytes.Buffer
+					cmd.Stderr = &stderr
+					raw, err := cmd.Output()
+					var o childOut
+					if err != nil || json.Unmarshal(raw, &o) != nil {
+						vrt.Infra(fmt.Sprintf("C16 child process failed: %v\n%s\n%s", err, stderr.String(), raw))
+					}
+					if o.Status != vrt.StOK.String() {
+						r.Fail("C16/run-broken", "public-api/"+mode, o.Status+": "+o.Err, input)
+						continue
+					}
+					check := func(where string, ss []childSeries, wantIter bool) {
+						got := map[string]uint64{}
+						var setupN uint64
+						for _, s := range ss {
+							switch {
+							case s.Family == "form3_loadtest_iteration" && s.Labels["stage"] == "iteration":
+								got[s.Labels["result"]] += s.Count
+								checkLabels(r, s.Labels, labels, "s", "iteration", input, where)
+							case s.Family == "form3_loadtest_iteration":
+								checkLabels(r, s.Labels, labels, "s", "stage", input, where)
+							case s.Family == "form3_loadtest_setup":
+								setupN += s.Count
+								checkLabels(r, s.Labels, labels, "s", "setup", input, where)
+							}
+							// exactly the configured keys besides f1's own
+							for k := range s.Labels {
+								if _, ok := labels[k]; !ok && k != "test" && k != "result" && k != "stage" {
+									r.Fail("C16/labels", "unconfigured-label", fmt.Sprintf("%s: series carries %s=%q, which was not configured (series %v)", where, k, s.Labels[k], s.Labels), input)
+								}
+							}
+						}
+						if wantIter && (got["success"] != 2 || got["fail"] != 1 || got["dropped"] != 0) {
+							r.Fail("C16/iteration-counts", "public-api/differs-from-run", fmt.Sprintf("%s: iteration samples success=%d fail=%d dropped=%d, the run made 2 successful and 1 failed iteration", where, got["success"], got["fail"], got["dropped"]), input)
+						}
+						if !wantIter && got["success"]+got["fail"]+got["dropped"] != 0 {
+							r.Fail("C16/iteration-counts", "exported-although-disabled", fmt.Sprintf("%s: %v", where, got), input)
+						}
+						if setupN != 1 {
+							r.Fail("C16/setup-count", "public-api/"+fmt.Sprint(setupN), fmt.Sprintf("%s: %d setup samples, want exactly 1", where, setupN), input)
+						}
+					}
+					check("in the process's default registry after ExecuteWithArgs", o.Series, withGW)
+					if withGW {
+						gw.mu.Lock()
+						var ss []childSeries
+						var keys []string
+						for k, g := range gw.groups {
+							keys = append(keys, k)
+							for _, mf := range g {
+								if !strings.HasPrefix(mf.GetName(), "form3_loadtest_") {
+									continue // the default registry also carries the Go runtime collectors
+								}
+								for _, m := range mf.GetMetric() {
+									cs := childSeries{Family: mf.GetName(), Labels: map[string]string{}, Count: m.GetSummary().GetSampleCount()}
+									for _, l := range m.GetLabel() {
+										cs.Labels[l.GetName()] = l.GetValue()
+									}
+									ss = append(ss, cs)
+								}
+							}
+						}
+						bad := strings.Join(gw.bad, "; ")
+						gw.mu.Unlock()
+						sort.Strings(keys)
+						if bad != "" {
+							r.Fail("C16/gateway-protocol", "bad-request", bad, input)
+						}
+						if len(keys) != 1 || keys[0] != "/metrics/job/f1-s" {
+							r.Fail("C16/gateway-group", "grouping-key", fmt.Sprintf("the gateway holds groups %v, want exactly /metrics/job/f1-s", keys), input)
+						} else {
+							check("on the push gateway after ExecuteWithArgs", ss, true)
+						}
+					}
+					r.Distinct(fmt.Sprintf("labels %d %s gw=%v", li, mode, withGW))
+				}
+			}
+		}
+	}}
+}
+
+func main() {
+	if os.Getenv("C16_CHILD") != "" {
+		child()
+		return
+	}
+	hlib.EnumMain("C16", suites)
+}
